@@ -99,13 +99,14 @@ PercentilesFor(n) ==
 (* get_unit: first record of (m, t, operation type), any sample type *)
 Unit(S, m, t) == IF HasAP(S, m, t) \/ Sel(S, m, t, FALSE, TRUE) # <<>> THEN UnitOf(m) ELSE "none"
 
-EmptyTable == [k |-> <<>>, v |-> <<>>, mean |-> None, unit |-> "none"]
+(* x: number of entries of the table that are neither a percentile nor mean / unit (none in the code as it is) *)
+EmptyTable == [k |-> <<>>, v |-> <<>>, mean |-> None, unit |-> "none", x |-> 0]
 (* single_latency *)
 Table(S, m, t) ==
     LET c == Col(S, m, t)
     IN IF c.n = 0 THEN EmptyTable
        ELSE LET ks == PercentilesFor(c.n)
-            IN [k |-> ks, v |-> [i \in 1..Len(ks) |-> Percentile(c, ks[i])], mean |-> Mean(c), unit |-> Unit(S, m, t)]
+            IN [k |-> ks, v |-> [i \in 1..Len(ks) |-> Percentile(c, ks[i])], mean |-> Mean(c), unit |-> Unit(S, m, t), x |-> 0]
 
 NoSummary(u) == [min |-> None, mean |-> None, med |-> None, max |-> None, unit |-> u]
 (* summary_stats("throughput"): `if mean and median and stats` *)
@@ -226,7 +227,7 @@ MeanMinMax(S, sched, o) ==
          /\ \A j \in 1..Len(TaskMetrics) :
               LET c == Col(S, TaskMetrics[j], t)
                   d == o.D[i][j]
-              IN (c.n > 0 /\ Unamb(S, TaskMetrics[j], t)) => d.n = c.n /\ d.min = CMin(c) /\ d.max = CMax(c) /\ d.mean = Mean(c)
+              IN (c.n > 0 /\ Unamb(S, TaskMetrics[j], t)) => d.min = CMin(c) /\ d.max = CMax(c) /\ d.mean = Mean(c)
 
 (* <<sample count, reported percentile keys>> of every reported table of the observation *)
 CountKeys(S, sched, o) ==
